@@ -27,6 +27,8 @@ type Net struct {
 	RefuseDial func(network, addr string) bool
 	// OnDial is called (outside the lock) for every successful Dial with the server side endpoint.
 	Stats  Stats
+	// Step points at the scheduler's step counter (log lines are stamped with it)
+	Step   *int
 	statMu sync.Mutex
 	allUDP []*UDPSock
 }
@@ -51,7 +53,11 @@ func New() *Net {
 }
 
 func (n *Net) logf(format string, a ...interface{}) {
-	n.Log = append(n.Log, fmt.Sprintf(format, a...))
+	st := 0
+	if n.Step != nil {
+		st = *n.Step
+	}
+	n.Log = append(n.Log, fmt.Sprintf("%06d ", st)+fmt.Sprintf(format, a...))
 }
 
 // ---------------------------------------------------------------------------------------------
